@@ -25,6 +25,9 @@ independent owner-matching questions (harness "match").  Integer tokens only.
          [`pb c annUid`], [`unr` + dump]
       unreserve = roll-back stage: 0 none, 1 Unreserve right after Reserve (also after a FAILED Reserve, as the
       framework does), 2 PreBind then Unreserve, 3 PreBind only (PreBind runs only after a successful Reserve)
+  resp u hasAff stage <pod>         the tail of a cycle whose nomination is already settled (u = the nominated
+                                    reservation, 0 = none): Reserve -> [PreBind] -> [Unreserve], stage as in `cyc`
+                                    -> `rsv c` + dump, [`pb c annUid`], [`unr` + dump]
   rres listed n <robj>              Reserve of the RESERVE pod of <robj> (the lister's object, listed = 0: lister miss)
                                     on node n -> `rsv c` + dump
   runr listed n podUid <robj>       Unreserve of that reserve pod -> `unr` + dump
@@ -133,6 +136,19 @@ def parseCyc : List Int → Option CycIn
 
 def showNats (tag : String) (l : List Nat) : String := " ".intercalate (tag :: (sortNat l).map toString)
 
+/-- Reserve -> [PreBind] -> [Unreserve] once NominateReservation has settled on `u` (0 = nothing nominated) -/
+def finishCycle (c : Cache) (x : CycIn) (u : Nat) : Cache × List String :=
+  let (c1, code) := reserveM c x u
+  let l3 := [s!"rsv {code}"] ++ dump c1
+  let assumed := if code == 0 then u else 0
+  let pb := preBindM assumed x.hasAff
+  let doPB := x.preBind && code == 0
+  let l4 := if doPB then l3 ++ [s!"pb {pb.1} {pb.2.1}"] else l3
+  if x.unreserve then
+    let c2 := unreservePodM c1 assumed (doPB && pb.2.2) x.pod.uid
+    (c2, l4 ++ ["unr"] ++ dump c2)
+  else (c1, l4)
+
 def runCycle (c : Cache) (x : CycIn) : Cache × List String :=
   let ms := matchedOf c x
   let l1 := [showNats "matched" (ms.map (·.uid)), s!"pre {preFilterM c x}"]
@@ -149,16 +165,8 @@ def runCycle (c : Cache) (x : CycIn) : Cache × List String :=
     | .one u => s!"nom {u}"
     | .among us => (showNats "nom among" us) ++ " 1"
   let u := nomUid x nom
-  let (c1, code) := reserveM c x u
-  let l3 := l2 ++ nfs ++ [nomLine, s!"rsv {code}"] ++ dump c1
-  let assumed := if code == 0 then u else 0
-  let pb := preBindM assumed x.hasAff
-  let doPB := x.preBind && code == 0
-  let l4 := if doPB then l3 ++ [s!"pb {pb.1} {pb.2.1}"] else l3
-  if x.unreserve then
-    let c2 := unreservePodM c1 assumed (doPB && pb.2.2) x.pod.uid
-    (c2, l4 ++ ["unr"] ++ dump c2)
-  else (c1, l4)
+  let (c', ls) := finishCycle c x u
+  (c', l2 ++ nfs ++ [nomLine] ++ ls)
 
 /-- one line: new cache + output lines -/
 def stepLine (c : Cache) (line : String) : Cache × List String :=
@@ -239,6 +247,16 @@ def stepLine (c : Cache) (line : String) : Cache × List String :=
     match (ints? rest).bind parseCyc with
     | some x => runCycle c x
     | none => bad
+  | "resp" :: rest =>
+    match ints? rest with
+    | some [u, ha, stage, uid, empty, q0, q1, q2] =>
+      let x : CycIn :=
+        { pod := { uid := uid.toNat, empty := empty != 0, req := vecOf [q0, q1, q2] },
+          qHas := fun d => empty == 0 && maskPos [q0, q1, q2] d, hasAff := ha != 0, hasName := false, node := 0,
+          nAlloc := vzero, nTotal := vzero, cands := [], chosen := 0,
+          unreserve := stage == 1 || stage == 2, preBind := stage == 2 || stage == 3 }
+      finishCycle c x u.toNat
+    | _ => bad
   | "rres" :: rest =>
     match ints? rest with
     | some (listed :: n :: l) =>
